@@ -96,6 +96,14 @@ fn run_case<B: Backend>(c: &Case, acc: &mut Acc) -> R {
     let lid = id_checks::<B, Local>(acc, "local", "lid", &lk, &lk_raw, &lk_raw)?;
     let sid = id_checks::<B, Secret>(acc, "secret", "sid", &sk, &sk_raw, &sk_in)?;
     let pid = id_checks::<B, Public>(acc, "public", "pid", &pk, &pk_raw, &pk_in)?;
+    // PKE key kinds share the sid / pid domains of their text form
+    {
+        use paseto_core::version::{PkePublic, PkeSecret};
+        let (psk, ppk, psk_raw, ppk_raw) = pke_pair::<B>(&c.key);
+        let psk_canon = model::pem_to_der(&psk_raw);
+        id_checks::<B, PkeSecret>(acc, "secret", "sid", &psk, &psk_canon, &psk_raw)?;
+        id_checks::<B, PkePublic>(acc, "public", "pid", &ppk, &ppk_raw, &ppk_raw)?;
+    }
     // the public key derived from the secret key has the pid of the public key
     ensure!(sk.public_key().id().to_string() == pid, format!("C13/{name}/pid/derived-public-key"), "public_key() of the secret key has another pid");
     // domain separation between related ids
